@@ -45,7 +45,8 @@ Section C03.
   Notation mkey_ok := (mkey_ok choose).
   Notation prot_hok := (prot_hok hok).
 
-  (* [corresponds k k']: k' is the public form of k (same material, type, curve, use; no key_ops).
+  (* [corresponds k k']: k' is the public form of k (same material, type, curve, use; its key_ops,
+     if any, allow "verify": check_key_op k' "verify" = Ok tt).
      [key_ok rg src src' h]: whatever key (and kid) the signer's key source src resolves
      for header h, the verifier's key source src' resolves the corresponding key from the
      produced header.  A callable key source is its result (a key or a key set). *)
@@ -56,6 +57,27 @@ Section C03.
     alg_sign mac pk_sign ec_sign r k msg = Ok sig ->
     bytes_ok sig = true /\ alg_verify mac pk_verify ec_verify r k' msg sig = Ok true.
   Proof. exact (alg_rt mac pk_sign pk_verify ec_sign ec_verify mac_octets pk_correct ec_correct). Qed.
+
+  (* key configurations: the round trips hold whenever the signer's key allows "sign"
+     (implied by the success of the signing call) and the verifier's key — same material,
+     type, curve and use — allows "verify": key_ops absent or containing "verify" *)
+  Theorem c03_rt_key_ops : forall (k k' : key),
+    k_id k' = k_id k -> k_kty k' = k_kty k -> k_crv k' = k_crv k -> k_bits k' = k_bits k ->
+    k_use k' = k_use k ->
+    match k_ops k' with None => True | Some ops => str_mem (asc "verify") ops = true end ->
+    corresponds k k'.
+  Proof. exact corresponds_of_ops. Qed.
+
+  (* the wrappers request exactly their own operation: a verify-only key is refused by sign,
+     and verification never needs "sign" *)
+  Theorem c03_alg_rt_verify_only : forall r k k' msg sig,
+    corresponds k k' -> k_ops k' = Some [asc "verify"] -> fam_of r <> FNone -> (0 < ec_len k)%nat ->
+    alg_sign mac pk_sign ec_sign r k msg = Ok sig ->
+    alg_verify mac pk_verify ec_verify r k' msg sig = Ok true.
+  Proof.
+    intros r k k' msg sig C _ NN HL S.
+    exact (proj2 (alg_rt mac pk_sign pk_verify ec_sign ec_verify mac_octets pk_correct ec_correct r k k' msg sig C NN HL S)).
+  Qed.
 
   (* ---- key sources ---- *)
   Theorem c03_key_ok_one : forall rg k k' h,
@@ -304,6 +326,8 @@ Example c03_compact_nonvacuous :
 Proof. eexists. split; [vm_compute; reflexivity|]. split; [repeat split|vm_compute; lia]. Qed.
 
 Print Assumptions c03_alg_rt.
+Print Assumptions c03_rt_key_ops.
+Print Assumptions c03_alg_rt_verify_only.
 Print Assumptions c03_key_ok_set.
 Print Assumptions c03_mkey_ok_set.
 Print Assumptions c03_compact_rt_gen.
